@@ -439,3 +439,128 @@ Theorem C01_exec_total :
     (L < 0 -> (n < 1000 * vfuel)%nat -> exists s', x = Ok s').
 Proof. exact compile_exec_total. Qed.
 Print Assumptions C01_exec_total.
+
+(* ===================== termination of the reference search ===================== *)
+(* Every theorem above that mentions [sem]/[attempt]/[find] is conditional on "... = Ok r": it says what the
+   answer is WHEN the fuel suffices.  Proofs/SpecTermProofs.v proves that enough fuel always exists and gives it.
+   The fuel of [sem] is a DEPTH (every recursive call gets fuel-1, a loop spends one unit per iteration), so
+     term_fuel e t = 1 + max over the children;  a loop {m,n} adds  Z.to_nat m + tlen e + 2:
+   past its minimum every further iteration must move (the empty-iteration rule of [iter]) and, when the body
+   runs in ONE direction, it moves towards the end of the text, so there are at most m + tlen + 2 iterations.
+   Side condition  term_ok t  (boolean, decidable): the body of every NLoop of t -- inside lookarounds too --
+   has all its consuming nodes (outside nested lookarounds / conditions) in one direction, and single-character
+   loops have 0 <= m.  Leg c01-frag evaluates it on every tree exported from the implementation (all satisfy it:
+   the parser flips RightToLeft only at a lookaround).
+   Analysis.shape_ok is NOT enough: it is silent inside lookarounds (C01_shape_ok_termination_refuted). *)
+From Verif Require Import Model.Analysis Proofs.SpecTermProofs Proofs.ComposeTerm.
+
+Theorem C01_sem_terminates :
+  forall (e : env) t s, term_ok t = true -> st_ok e s ->
+  forall fuel, (term_fuel e t <= fuel)%nat -> exists l, sem e fuel t s = Ok l.
+Proof. exact spec_sem_total. Qed.
+Print Assumptions C01_sem_terminates.
+
+(* ... and the answer does not depend on the fuel from there on *)
+Theorem C01_sem_terminates_stable :
+  forall (e : env) t s, term_ok t = true -> st_ok e s ->
+  exists l, forall fuel, (term_fuel e t <= fuel)%nat -> sem e fuel t s = Ok l.
+Proof. exact spec_sem_total_stable. Qed.
+Print Assumptions C01_sem_terminates_stable.
+
+Theorem C01_attempt_terminates :
+  forall (e : env) root p, term_ok root = true -> 0 <= p <= tlen e ->
+  forall fuel, (term_fuel e root <= fuel)%nat ->
+  exists r, attempt e fuel root p = Ok r /\ attemptk e fuel root p = Ok r.
+Proof. exact spec_attempt_total. Qed.
+Print Assumptions C01_attempt_terminates.
+
+Theorem C01_find_terminates :
+  forall (e : env) root (rtl : bool) start prevlen, term_ok root = true -> 0 <= start <= tlen e ->
+  forall fuel, (term_fuel e root <= fuel)%nat ->
+  exists r, find e fuel root rtl start prevlen = Ok r /\ findk e fuel root rtl start prevlen = Ok r.
+Proof. exact spec_find_total. Qed.
+Print Assumptions C01_find_terminates.
+
+(* Without ANY side condition (every tree, every state, every offset) the search still terminates, because [iter]
+   also counts: a loop ends when its counter reaches  limit <= INF.  The fuel term_fuel_any does not depend on the
+   text, but is of the order of 2^31 per unbounded loop -- outside the range  Z.of_nat fuel <= INF  that the
+   compile theorems ask for; that is why the theorems below use term_ok / term_fuel. *)
+Theorem C01_find_terminates_on_every_tree :
+  forall (e : env) root (rtl : bool) start prevlen fuel, (term_fuel_any root <= fuel)%nat ->
+  exists r, find e fuel root rtl start prevlen = Ok r /\ findk e fuel root rtl start prevlen = Ok r.
+Proof. exact spec_find_total_any. Qed.
+Print Assumptions C01_find_terminates_on_every_tree.
+
+Theorem C01_sem_terminates_on_every_tree :
+  forall (e : env) t fuel, (term_fuel_any t <= fuel)%nat -> forall s, exists l, sem e fuel t s = Ok l.
+Proof. exact spec_sem_total_any. Qed.
+Print Assumptions C01_sem_terminates_on_every_tree.
+
+(* shape_ok admits a tree whose search needs more fuel than INF: under a lookahead, a loop whose body moves right
+   and sets group 1 when it is unset, moves left and pops it when it is set ((?(1) <rtl a>(?<-1>) | <ltr a>(?<1>))* );
+   on "a" two states alternate for ever and only the counter reaching 2^31-1 stops the loop *)
+Theorem C01_shape_ok_termination_refuted :
+  shape_ok false tm_osc_tree = true /\ shape_ok true tm_osc_tree = true /\ term_ok tm_osc_tree = false /\
+  (forall fuel, Z.of_nat fuel <= INF -> sem (tm_demo_env [97]) fuel tm_osc_tree tm_osc_s0 = Fuel) /\
+  (exists fuel l, sem (tm_demo_env [97]) fuel tm_osc_tree tm_osc_s0 = Ok l).
+Proof.
+  exact (conj (proj1 tm_osc_shape) (conj (proj1 (proj2 tm_osc_shape))
+          (conj (proj2 (proj2 (proj2 (proj2 tm_osc_shape))))
+             (conj tm_osc_needs_more_than_INF tm_osc_terminates_eventually)))).
+Qed.
+Print Assumptions C01_shape_ok_termination_refuted.
+
+(* old predicate => new predicate where the old one speaks: a shape_ok tree without lookarounds / expression
+   conditionals is term_ok; and a shape_ok tree is one-directional outside its lookarounds *)
+Theorem C01_shape_ok_implies_term_ok :
+  forall (d : bool) t, shape_ok d t = true -> tm_look_free t = true -> term_ok t = true.
+Proof. exact tm_shape_term_ok. Qed.
+Print Assumptions C01_shape_ok_implies_term_ok.
+
+Theorem C01_shape_ok_implies_dir_ok :
+  forall (d : bool) t, shape_ok d t = true -> tm_dir_ok d t = true.
+Proof. exact tm_shape_dir_ok. Qed.
+Print Assumptions C01_shape_ok_implies_dir_ok.
+
+(* C01_exec_total + C01_compile_correct2_exec_partial WITHOUT the hypothesis "attempt e fuel root t0 = Ok r":
+   for the program of a supported2 tree with one-directional loop bodies whose reference fuel is inside the
+   counter range, the reference attempt answers r, and there is an interpreter fuel from which on, under EVERY
+   stack limit L, one execute() call is ErrBacktrackingStackLimit (only if 0 <= L) or returns the final Stop
+   state carrying r -- never Crash, never out of fuel; without a limit it returns. *)
+Theorem C01_exec_total_terminating :
+  forall (e : env) (p : program), 0 <= trackcount p -> track_count (codes p) <= trackcount p -> tlen e <= INF ->
+  forall o body t0,
+  let root := NCapture o 0 (-1) body in
+  let M0 := repeat [] (Z.to_nat (capsize p)) in
+  let stop := 2 + csize cfg0 root in
+  codes p = fst (compile cfg0 root) -> strings p = snd (compile cfg0 root) ->
+  supported2 root = true -> groups_ok2 (capsize p) root -> 0 <= t0 <= tlen e ->
+  term_ok root = true -> Z.of_nat (term_fuel e root) <= INF ->
+  exists r, attempt e (term_fuel e root) root t0 = Ok r /\
+  exists vfuel0 : nat, forall L vfuel, (vfuel0 <= vfuel)%nat ->
+    let x := exec_at e p L vfuel t0 in
+    ((x = Err E_StackLimit /\ 0 <= L) \/
+     (exists s', x = Ok s' /\ pc s' = stop /\ mode s' = 0 /\
+        match r with
+        | Some q => tp s' = pos q /\ caps_rel2 p (caps q) (mcaps s') /\ matched0 s' = true
+        | None => mcaps s' = M0 /\ matched0 s' = false
+        end)) /\
+    (L < 0 -> exists s', x = Ok s').
+Proof. exact ct_exec_total_terminating. Qed.
+Print Assumptions C01_exec_total_terminating.
+
+(* the counter-range hypothesis read separately on the tree and on the text: the text length enters term_fuel
+   additively (leg c01-frag reports term_fuel_n 0 t, the bound for the empty text, for every exported tree) *)
+Theorem C01_term_fuel_in_range :
+  forall (e : env) t, Z.of_nat (term_fuel_n 0 t) + tlen e <= INF -> Z.of_nat (term_fuel e t) <= INF.
+Proof. exact tm_fuel_in_range. Qed.
+Print Assumptions C01_term_fuel_in_range.
+
+(* non-vacuity (vm_compute): the bound on the nullable loop ( a* )* / "aab" (fuel 6, Fuel with 3 less), on the
+   counted loop (?:ab){2,3} / "ababab" (fuel 11), on a right-to-left lazy loop inside a lookbehind (fuel 8);
+   the a^n b^n program with balancing groups meets term_ok with fuel 10 *)
+Example C01_term_witness_values := tm_ex_fuel_values.
+Example C01_term_witness_nullable := tm_ex_star_star_runs.
+Example C01_term_witness_counted := tm_ex_counted_runs.
+Example C01_term_witness_lookbehind := tm_ex_lookbehind_runs.
+Example C01_term_witness_compiled := ct_demo.
